@@ -96,6 +96,10 @@ def run(repo, rep, tier):
     rep.rule("R-C04-7", "the watershed-line reassignment reads neighbour labels from one array and writes to a snapshot, framed by full copies")
     nsw = cnative.sweep_coverage(repo, rep, "R-C04-6")
     rep.floor("R-C04-6", "whole-spectrum sweeps", nsw, 8)
+    rep.rule("R-C04-8", "each decision of the immersion (queue seeding, label propagation, new basins, watershed-line reassignment) "
+                        "equals Vincent & Soille's reference transition on every combination of label classes (finite case analysis)")
+    ncomb = cnative.immersion_decisions(repo, rep, "R-C04-8")
+    rep.floor("R-C04-8", "label-class combinations evaluated", ncomb, 150)
     ndb = cnative.double_buffer(repo, rep, "R-C04-7")
     rep.floor("R-C04-7", "neighbour-label reassignment stores", ndb, 1)
     cf = cnative.core(repo)
